@@ -260,6 +260,15 @@ class Repo:
             m.classes.repo, m.classes.module = self, m
             self.modules[name] = m
             self._index(m)
+        # module-level constants imported from another module of the package (`from .advan import RATE_NAMES`) are visible as
+        # constants of the importing module too: a table that moves to a shared module stays a table
+        for _ in range(2):
+            for m in self.modules.values():
+                for local, imp in m.imports.items():
+                    if isinstance(imp, tuple) and imp[0] == 'attr' and local not in m.globals_:
+                        src_m = self.modules.get(imp[1])
+                        if src_m is not None and imp[2] in src_m.globals_:
+                            m.globals_[local] = src_m.globals_[imp[2]]
         self._subclasses = None
         self.n_inlined = 0
         self.renamed = {}
